@@ -94,7 +94,9 @@ def shape_of(spec):
 
 INNER = {
     'num': (lambda r: Ty('int'), lambda r: Ty('float'), lambda r: Ty('fraction'), lambda r: Ty('decimal'), lambda r: Ty('sub', base='int'),
-            lambda r: Ty('union', [Ty('int'), Ty('float')])),
+            lambda r: Ty('union', [Ty('int'), Ty('float')]),
+            # Optional inner types: None is a value like any other - the condition is asked about it (and usually raises: a failed condition)
+            lambda r: Ty('union', [Ty('int'), Ty('none')]), lambda r: Ty('union', [Ty('none'), Ty('float'), Ty('str')])),
     'len': (lambda r: Ty('str'), lambda r: Ty('bytes'), lambda r: Ty('list', [Ty('int')]), lambda r: Ty('seq', [Ty('int')]),
             lambda r: Ty('set', [Ty('int')], res='set'), lambda r: Ty('dict', [Ty('str'), Ty('int')]), lambda r: Ty('list', [Ty('any')])),
     'arr': (lambda r: Ty('ndarray', dtype='float'), lambda r: Ty('ndarray', dtype='int')),
@@ -259,6 +261,40 @@ def run(ctx):
                               mech=f"nested-{place}")
 
     drive.for_each_case(ctx, 'main', ctx.budget, body, gen=lambda c, r: Ty('int'))
+
+    # the SAME Annotated alias object converted under different custom handlers (call-level, class-level, none), in any order:
+    # the condition is checked each time and the handlers are those of the call at hand
+    def body_handlers(i, rng, ty, T):
+        from . import c18
+        PT = env.m_types
+        alias = rng.choice((PT.PositiveInt, PT.NonNegativeInt, t.Annotated[int, C.build_cond({'op': 'val_range', 'min': 0, 'max': 10})]))
+        holder = type(f"KC{next(_serial)}", (env.PaneBase,), {'__annotations__': {'n': alias}, '__module__': __name__}, custom={int: c18.StampConv('class')})
+        uses = [('plain', lambda v: env.from_data(v, alias), None), ('call', lambda v: env.from_data(v, alias, custom={int: c18.StampConv('call')}), 'call'),
+                ('class', lambda v: holder.from_data({'n': v}).n, 'class'), ('list-plain', lambda v: env.from_data([v], t.List[alias])[0], None),
+                ('list-call', lambda v: env.from_data([v], t.List[alias], custom={int: c18.StampConv('call')})[0], 'call')]
+        seq = [rng.choice(uses) for _ in range(rng.randint(3, 7))]
+        for step, (name, call, stamp) in enumerate(seq):
+            for v, ok in ((5, True), (-3, False)):
+                o = observe(call, v)
+                ctx.count('handler_context_uses')
+                ctx.case(('cond-x-handlers', name, ok, o.kind), nontrivial=True)
+                wit = {'alias': short(alias, 120), 'uses_in_order': [n for n, *_ in seq], 'step': step, 'use': name, 'value': v, 'outcome': o.brief()}
+                if stamp is None:
+                    # no handler in force: plain int conversion, condition on the int
+                    if (o.kind == 'value') != ok or (ok and (type(o.val) is not int or o.val != v)):
+                        ctx.violation('condition-semantics', 'handlers', i, wit, mech='condition-x-handlers:plain-use-differs')
+                        return
+                else:
+                    # the handler of THIS use converted the value (the condition then sees the handler's result: whatever it says,
+                    # no stamp of another use may appear, and an un-stamped int means the handler was skipped)
+                    if o.kind == 'value' and not (isinstance(o.val, c18.Stamp) and o.val.source == stamp):
+                        ctx.violation('condition-semantics', 'handlers', i, {**wit, 'expected_stamp': stamp}, mech='condition-x-handlers:handler-of-another-use')
+                        return
+                    if o.kind == 'escape':
+                        ctx.violation('condition-semantics', 'handlers', i, wit, mech='condition-x-handlers:escape')
+                        return
+
+    drive.for_each_case(ctx, 'handlers', max(20, ctx.budget // 20), body_handlers, gen=lambda c, r: Ty('int'))
 
     # the aliases shipped in pane.types
     def body_alias(i, rng, ty, T):
